@@ -294,6 +294,22 @@ func (ctx *RenderContext) GetVariable(name string) (interface{}, error) {
 	return nil, nil
 }
 
+// hasVariable reports whether a variable of that name is defined in the context,
+// the globals or a parent context
+func (ctx *RenderContext) hasVariable(name string) bool {
+	for c := ctx; c != nil; c = c.parent {
+		if _, ok := c.context[name]; ok {
+			return true
+		}
+	}
+	if ctx.env != nil {
+		if _, ok := ctx.env.globals[name]; ok {
+			return true
+		}
+	}
+	return false
+}
+
 // GetVariableOrNil gets a variable from the context, returning nil silently if not found
 func (ctx *RenderContext) GetVariableOrNil(name string) interface{} {
 	value, _ := ctx.GetVariable(name)
@@ -706,9 +722,12 @@ func (ctx *RenderContext) EvaluateExpression(node Node) (interface{}, error) {
 		return n.value, nil
 
 	case *VariableNode:
-		// Check if it's a macro first
-		if macro, ok := ctx.GetMacro(n.name); ok {
-			return macro, nil
+		// A variable (a macro parameter, a loop or set variable, context data)
+		// shadows a macro of the same name
+		if !ctx.hasVariable(n.name) {
+			if macro, ok := ctx.GetMacro(n.name); ok {
+				return macro, nil
+			}
 		}
 
 		// Otherwise, look up variable
